@@ -313,6 +313,15 @@ class SymEval:
                     if lo > hi or hi > len(base[1]):
                         raise Panic("slice [%d..%d] out of range (len %d)" % (lo, hi, len(base[1])))
                     return ("list", base[1][lo:hi])
+            if isinstance(base, tuple) and base[0] == "map" and isinstance(base[1], dict) and not (isinstance(idx, tuple) and idx and idx[0] in ("range", "rangev")):
+                try:
+                    hash(idx)
+                    k_ = idx
+                except TypeError:
+                    k_ = repr(idx)
+                if k_ not in base[1]:
+                    raise Panic("map indexed with a key that is not present")
+                return base[1][k_]
             if isinstance(base, tuple) and base[0] == "str" and isinstance(base[1], str) and isinstance(idx, tuple) and idx[0] == "range":
                 # a concrete string sliced by byte positions (a position inside a character panics, as in Rust)
                 rg = idx[1]
@@ -1279,6 +1288,11 @@ class SymEval:
                 return old
             if m == "remove" and len(args) == 1:
                 return ("some", d.pop(key(args[0]))) if key(args[0]) in d else NONE
+            if m == "entry" and len(args) == 1:
+                return ("enum", "Entry::Occupied" if key(args[0]) in d else "Entry::Vacant", [("entryref", d, key(args[0]), args[0])])
+            if m in ("keys", "values", "iter") and not args and len(d) <= 1:
+                # iteration order of a hash map is unspecified: only decided for at most one entry
+                return ("list", [k_ if m == "keys" else v_ if m == "values" else ("tuple", [k_, v_]) for k_, v_ in d.items()])
             if m == "len" and not args:
                 return len(d)
             if m == "is_empty" and not args:
@@ -1286,6 +1300,29 @@ class SymEval:
             if m == "clear" and not args:
                 d.clear()
                 return UNIT
+        if isinstance(recv, tuple) and recv and recv[0] == "enum" and recv[1] in ("Entry::Occupied", "Entry::Vacant") and len(recv[2]) == 1 \
+                and isinstance(recv[2][0], tuple) and recv[2][0][0] == "entryref":
+            _t, d_, k_, _k0 = recv[2][0]
+            if m in ("or_insert", "or_insert_with", "or_default") and len(args) <= 1:
+                if k_ not in d_:
+                    if m == "or_default":
+                        self.fail("or_default: the default of the value type is unknown", e)
+                    d_[k_] = args[0] if m == "or_insert" else self.apply(args[0], [])
+                return d_[k_]
+            if m == "key" and not args:
+                return _k0
+        if isinstance(recv, tuple) and recv and recv[0] == "entryref" and len(recv) == 4:
+            _t, d_, k_, _k0 = recv
+            if m == "insert" and len(args) == 1:
+                old_ = d_.get(k_)
+                d_[k_] = args[0]
+                return args[0] if old_ is None else old_     # VacantEntry::insert -> &mut V; OccupiedEntry::insert -> the old value
+            if m in ("get", "get_mut", "into_mut") and not args and k_ in d_:
+                return d_[k_]
+            if m == "key" and not args:
+                return _k0
+            if m == "remove" and not args and k_ in d_:
+                return d_.pop(k_)
         # Option / Result combinators
         if recv == NONE or (isinstance(recv, tuple) and recv[0] == "some"):
             some = recv[0] == "some"
